@@ -1,5 +1,6 @@
 """Shared generators (DESIGN §2.3): forests with integer coordinates and integer edge lengths,
 many shapes / labelings / row orders; conversion to navis TreeNeurons and to the driver's wire format."""
+import os, random
 import itertools
 import numpy as np
 import pandas as pd
@@ -119,10 +120,29 @@ def rows_to_df(rows, radius=0.01):
                          'radius': radius})
 
 
+def index_variant(rows):
+    """Deterministic choice of the DataFrame index the node table is handed to navis with: navis keeps the
+    caller's index, and code that confuses index LABELS with row POSITIONS is only visible when they differ.
+    0/1: default RangeIndex, 2: a permutation of 0..n-1, 3: sparse labels with an offset."""
+    h = 0
+    for r in rows:
+        h = (h * 1000003 + int(r['id']) * 31 + int(r['parent'])) & 0xFFFFFFFF
+    return h % 4
+
+
 def to_neuron(rows, **kw):
     import navis
     kw.setdefault('units', '1 nm')
-    return navis.TreeNeuron(rows_to_df(rows), **kw)
+    df = rows_to_df(rows)
+    v = index_variant(rows) if os.environ.get('VERIF_DEFAULT_INDEX') != '1' else 0
+    n = len(df)
+    if v == 2 and n > 1:
+        perm = list(range(n))
+        random.Random(n * 7919 + int(rows[0]['id'])).shuffle(perm)
+        df.index = perm
+    elif v == 3 and n > 0:
+        df.index = [7 * k + 5 for k in range(n)]
+    return navis.TreeNeuron(df, **kw)
 
 
 _L = {'root': 'r', 'end': 'e', 'branch': 'b', 'slab': 's'}
